@@ -23,6 +23,10 @@ TEXT = {
                    "h = headStatus | HeadState::deepUpdatePlans and s = subStatus | SubStates::wideUpdatePlans",
     "C06.status-accumulators": "in C_/O_ update members and the reaction wrappers the head call's status is or-ed into headStatus and the sub-states' into "
                                "subStatus (never crossed)",
+    "C06.own-status": "the status a state's update / reaction member hands to its region is the status of its own callbacks: S_<headed>::deepPreUpdate ... "
+                      "deepPostReact return control._taskStatus, one value shared by everything that runs inside a region scope (cleared only when the scope "
+                      "is left), so on every path it is cleared before the state's callbacks run and not after them - otherwise what a leaf sub-state "
+                      "reported is read again as the status of the head that runs after it (postUpdate, postReact, bottom-up react) or of an orthogonal sibling",
     "C06.marks": "S_::deepExit calls planData.clearTaskStatus(STATE_ID) after the user's exit; clearTaskStatus clears both the success and the failure bit of the "
                  "state; clearStatuses clears successes, failures, head and sub statuses; A_::planSucceeded/planFailed defaults call control.succeed()/fail(); "
                  "TaskStatus::Result is ordered NONE < SUCCESS < FAILURE and | / |= take the maximum",
@@ -31,7 +35,7 @@ TEXT = {
                     "region), under an origin scope naming the region head",
     "C06.siblings": "the payload and void copies of updatePlan and of the PlanDataT members agree statement for statement modulo the payload arm",
 }
-MIN_INSTANCES = {"C06.defaults": 2, "C06.task-fields": 1, "C06.exec-guards": 1, "C06.routing": 3, "C06.status-accumulators": 8, "C06.marks": 5, "C06.siblings": 3}
+MIN_INSTANCES = {"C06.defaults": 2, "C06.task-fields": 1, "C06.exec-guards": 1, "C06.routing": 3, "C06.status-accumulators": 8, "C06.own-status": 6, "C06.marks": 5, "C06.siblings": 3}
 
 
 def declare(ctx):
@@ -51,6 +55,7 @@ def check(ctx, F):
     check_update_plan(ctx, F)
     check_routing(ctx, F)
     check_accumulators(ctx, F)
+    check_own_status(ctx, F)
     check_marks(ctx, F)
     check_siblings(ctx, F)
     check_defaults(ctx, F)
@@ -419,6 +424,42 @@ def check_accumulators(ctx, F):
     for fid, b in F.bodies.items():
         if b["inst"] and b.get("cls") in ("PreReactWrapperT", "ReactWrapperT", "PostReactWrapperT") and b["name"] == "execute":
             scan(fid, b, "%s<%s>::execute/%d" % (b["cls"], F.spec(b["tid"]), len(b.get("params", []))))
+
+
+STATUS_MEMBERS = {"deepPreUpdate": ("widePreUpdate", "preUpdate"), "deepUpdate": ("wideUpdate", "update"), "deepPostUpdate": ("postUpdate", "widePostUpdate"),
+                  "deepPreReact": ("widePreReact", "preReact"), "deepReact": ("wideReact", "react"), "deepPostReact": ("postReact", "widePostReact")}
+
+
+def check_own_status(ctx, F):
+    for fid, b in insts(F, "S_", set(STATUS_MEMBERS), spec="headed"):
+        site = "S_<headed>::%s" % b["name"]
+        cbs = STATUS_MEMBERS[b["name"]]
+        bad = None
+        for p in paths_of(ctx, F, fid):
+            first_cb = None
+            clears = []
+            ret = None
+            for i, ev in enumerate(p):
+                if ev[0] == "icall" or (ev[0] == "call" and ev[2] is not None and F.fn(ev[2])["name"] in cbs):
+                    if first_cb is None:
+                        first_cb = i
+                elif ev[0] == "call" and ev[2] is not None and F.fn(ev[2])["name"] == "clear" and (ev[3] or "").endswith("._taskStatus"):
+                    clears.append(i)
+                elif ev[0] == "write" and (ev[2] or "").endswith("._taskStatus"):
+                    clears.append(i)
+                elif ev[0] == "ret":
+                    ret = ev[2]
+            if first_cb is None:
+                raise AnalysisBroken("%s: no callback call found on a path (expected %s)" % (site, "/".join(cbs)))
+            if ret is None or "_taskStatus" not in ret:
+                raise AnalysisBroken("%s returns `%s`: not the region-scope status - the rule does not know this idiom" % (site, ret))
+            if not any(c < first_cb for c in clears):
+                bad = "returns control._taskStatus without clearing it before its callbacks run: it still holds what ran earlier in the region scope"
+            elif any(c > first_cb for c in clears):
+                bad = "clears control._taskStatus after its callbacks ran: what the state itself reported is dropped"
+        ctx.instance("C06.own-status", site, {"function": site, "loc": F.floc(fid), "callbacks": list(cbs)})
+        if bad:
+            ctx.violation("C06.own-status", site, "%s (%s)" % (site, F.floc(fid)), "%s %s" % (site, bad), {})
 
 
 def _unwrap(e):
